@@ -20,8 +20,9 @@ The TS path (`demux_ts_packet`) is in `ZvbiModel/Demux/Ts.lean` and reuses every
 * `pesPacketFrame`             `demux_pes_packet_frame`
 * `Wrap`, `wrapAround`         `struct wrap`, `wrap_around`
 * `St`, `St.init`              PES demux context after `vbi_dvb_pes_demux_new`
-* `pesFeed s buf`              `vbi_dvb_demux_feed` with a callback that returns TRUE -> `Res`
-* `pesCor s buf si maxLines`   one `vbi_dvb_demux_cor` call; `pesCorDrain` loops it over a buffer
+* `SrcCfg`, `SrcCfg.current`   shape of the two repaired statements of the source (parameter of the PES loop)
+* `pesFeed cfg s buf`          `vbi_dvb_demux_feed` with a callback that returns TRUE -> `Res`
+* `pesCor cfg s buf si maxLines` one `vbi_dvb_demux_cor` call; `pesCorDrain` loops it over a buffer
 * `Res {st frames err}`        new state, frames delivered in order, `some e` iff the C code would
                                have left an object (`.oob`) or failed an `assert` (`.assertFail`)
 
@@ -406,14 +407,31 @@ inductive Stop where
   | fault (e : Err)
   deriving DecidableEq, Repr
 
+/-- The two statements of dvb_demux.c whose shape `translate/gen_demux.py` reads from the current
+source.  Every function that depends on them takes the shape as a parameter, so that theorems can
+be stated for the repaired and for the unrepaired source alike; the driver passes `SrcCfg.current`. -/
+structure SrcCfg where
+  /-- `demux_pes_packet_frame`: with `callback == NULL` a frame without lines is skipped (`continue`) -/
+  corSkipsEmpty : Bool
+  /-- `demux_pes_packet`: a data unit error discards the lines collected so far (`0 != err`, not `err < 0`) -/
+  pesDiscards : Bool
+  deriving DecidableEq, Repr
+
+/-- the source as it is now (regenerated from /repo on every run) -/
+def SrcCfg.current : SrcCfg :=
+  { corSkipsEmpty := Zvbi.Gen.demuxCorSkipsEmptyFrame, pesDiscards := Zvbi.Gen.demuxPesDiscardsOnError }
+/-- the tree before the fix commits 776a0f0 / 7c6e61c -/
+def SrcCfg.unrepaired : SrcCfg := { corSkipsEmpty := false, pesDiscards := false }
+def SrcCfg.repaired : SrcCfg := { corSkipsEmpty := true, pesDiscards := true }
+
 /-- frame state after `demux_pes_packet_frame` reported a data unit error in the PES path -/
-def pesErrFs (fs : FS) : FS :=
-  if Zvbi.Gen.demuxPesDiscardsOnError then { fs with newFrame := true } else fs
+def pesErrFs (cfg : SrcCfg) (fs : FS) : FS :=
+  if cfg.pesDiscards then { fs with newFrame := true } else fs
 
 /-- what one iteration of the outer `for (;;)` does once `wrap_around` returned TRUE with `win`:
 new `(pes_wrap.skip, pes_wrap.lookahead)`, frame state, frames; `none` result = continue,
 `some` = return.  (`skip` is 0 here; it is passed so that the early exits return it unchanged.) -/
-def pesIter (hasCb skipEmpty : Bool) (skip lookahead : Nat) (fs : FS) (win : Bytes) :
+def pesIter (hasCb : Bool) (cfg : SrcCfg) (skip lookahead : Nat) (fs : FS) (win : Bytes) :
     (Nat × Nat) × FS × List FrameOut × Option Stop :=
   if lookahead > PES_HEADER_LOOKAHEAD then
     -- data units: p .. p + lookahead
@@ -421,14 +439,14 @@ def pesIter (hasCb skipEmpty : Bool) (skip lookahead : Nat) (fs : FS) (win : Byt
     if left > win.length then ((skip, lookahead), fs, [], some (.fault (.oob "pes_payload")))
     else
       let fs0 : FS := { fs with frame := { fs.frame with nDu := 0 } }
-      match pesPacketFrame 3 hasCb skipEmpty fs0 (win.take left) with
+      match pesPacketFrame 3 hasCb cfg.corSkipsEmpty fs0 (win.take left) with
       | (fs1, outs, .callback, _) => ((skip, lookahead), fs1, outs, some .callback)
       | (fs1, outs, .fault e, _) => ((skip, lookahead), fs1, outs, some (.fault e))
       | (fs1, outs, .err, _) =>
         -- unchanged tree: `else if (err < 0) dx->new_frame = TRUE;` is dead code (every VBI_ERR_* value is
         -- positive, demux_pes_packet_frame never returns -1): the lines collected so far are kept, unlike in
-        -- the TS path.  `Zvbi.Gen.demuxPesDiscardsOnError` is regenerated from the source text.
-        ((lookahead, PES_HEADER_LOOKAHEAD), pesErrFs fs1, outs, none)
+        -- the TS path (`cfg.pesDiscards = false`); repaired by commit 7c6e61c.
+        ((lookahead, PES_HEADER_LOOKAHEAD), pesErrFs cfg fs1, outs, none)
       | (fs1, outs, .done, _) => ((lookahead, PES_HEADER_LOOKAHEAD), fs1, outs, none)
   else
     if lookahead > win.length then ((skip, lookahead), fs, [], some (.fault (.oob "pes_scan_end")))
@@ -453,18 +471,18 @@ def pesIter (hasCb skipEmpty : Bool) (skip lookahead : Nat) (fs : FS) (win : Byt
 
 /-- `demux_pes_packet (dx, &src, &src_left)`: source `buf` from offset `si`; `srcSize` = `*src_left`
 at entry. Returns state, frames, new offset, stop reason. -/
-def pesLoop : Nat → Bool → Bool → St → Bytes → Nat → Nat → St × List FrameOut × Nat × Stop
+def pesLoop : Nat → Bool → SrcCfg → St → Bytes → Nat → Nat → St × List FrameOut × Nat × Stop
   | 0, _, _, s, _, si, _ => (s, [], si, .fault (.assertFail "pes_loop_fuel"))
-  | fuel + 1, hasCb, skipEmpty, s, buf, si, srcSize =>
+  | fuel + 1, hasCb, cfg, s, buf, si, srcSize =>
     match wrapAround PES_BUF_SIZE s.pw buf si srcSize with
     | .fault e => (s, [], si, .fault e)
     | .more w si' => ({ s with pw := w }, [], si', .needMore)
     | .win w si' win =>
-      match pesIter hasCb skipEmpty w.skip w.lookahead s.fs win with
+      match pesIter hasCb cfg w.skip w.lookahead s.fs win with
       | ((sk, la), fs', outs, some stop) => ({ pw := { w with skip := sk, lookahead := la }, fs := fs' }, outs, si', stop)
       | ((sk, la), fs', outs, none) =>
         let (s2, outs2, si2, stop) :=
-          pesLoop fuel hasCb skipEmpty { pw := { w with skip := sk, lookahead := la }, fs := fs' } buf si' srcSize
+          pesLoop fuel hasCb cfg { pw := { w with skip := sk, lookahead := la }, fs := fs' } buf si' srcSize
         (s2, outs ++ outs2, si2, stop)
 
 /-- fuel that always suffices (theorem `pesFeed_fuel`): every iteration but the first is preceded by
@@ -472,16 +490,16 @@ a skip of >= 1 byte of `leftover ++ buf` -/
 def pesFuel (s : St) (buf : Bytes) : Nat := s.pw.leftover + buf.length + 2
 
 /-- `vbi_dvb_demux_feed (dx, buffer, buffer_size)` on a PES demux whose callback returns TRUE -/
-def pesFeed (s : St) (buf : Bytes) : Res :=
-  match pesLoop (pesFuel s buf) true false s buf 0 buf.length with
+def pesFeed (cfg : SrcCfg) (s : St) (buf : Bytes) : Res :=
+  match pesLoop (pesFuel s buf) true cfg s buf 0 buf.length with
   | (s', outs, _, .fault e) => { st := s', frames := outs, err := some e }
   | (s', outs, _, _) => { st := s', frames := outs }
 
 /-- one `vbi_dvb_demux_cor (dx, sliced, max_lines, &pts, &buffer, &buffer_left)` call with
 `*buffer = buf + si`: (state, new offset, returned frame if the return value is > 0, fault) -/
-def pesCor (skipEmpty : Bool) (s : St) (buf : Bytes) (si maxLines : Nat) :
+def pesCor (cfg : SrcCfg) (s : St) (buf : Bytes) (si maxLines : Nat) :
     St × Nat × Option FrameOut × Option Err :=
-  match pesLoop (pesFuel s buf) false skipEmpty s buf si (buf.length - si) with
+  match pesLoop (pesFuel s buf) false cfg s buf si (buf.length - si) with
   | (s', _, si', .fault e) => (s', si', none, some e)
   | (s', _, si', .needMore) => (s', si', none, none)
   | (s', _, si', .callback) =>
@@ -499,18 +517,18 @@ A call that neither consumes input nor returns a frame is a *stall*; `COR_STALL_
 row end the loop with `.assertFail "cor_livelock"` (the harness does the same, so that a livelock
 of the real code is an output line and not a watchdog timeout).
 `fuel`: number of calls allowed; `2 * buf.length + 4` suffices when nothing stalls. -/
-def pesCorDrain : Nat → Bool → Nat → St → Bytes → Nat → Nat → Res
+def pesCorDrain : Nat → SrcCfg → Nat → St → Bytes → Nat → Nat → Res
   | 0, _, _, s, _, _, _ => { st := s, err := some (.assertFail "cor_drain_fuel") }
-  | fuel + 1, skipEmpty, stall, s, buf, si, maxLines =>
+  | fuel + 1, cfg, stall, s, buf, si, maxLines =>
     if si ≥ buf.length then { st := s }
     else
-      match pesCor skipEmpty s buf si maxLines with
+      match pesCor cfg s buf si maxLines with
       | (s', _, _, some e) => { st := s', err := some e }
       | (s', si', fo, none) =>
         let stall' := if si' = si ∧ fo.isNone then stall + 1 else 0
         if stall' ≥ COR_STALL_LIMIT then { st := s', err := some (.assertFail "cor_livelock") }
         else
-          let r := pesCorDrain fuel skipEmpty stall' s' buf si' maxLines
+          let r := pesCorDrain fuel cfg stall' s' buf si' maxLines
           { r with frames := fo.toList ++ r.frames }
 
 /-- `vbi_dvb_demux_reset` -/
